@@ -69,8 +69,11 @@ func (g *sgen) sizeProp(n int) string {
 	if g.noSize || g.r.Intn(5) != 0 {
 		return ""
 	}
-	if g.r.Intn(3) == 0 {
+	switch g.r.Intn(4) {
+	case 0:
 		return "fixed:true"
+	case 1: // both: the explicit size wins over the number of element columns
+		return "fixed:true size:" + strconv.Itoa(1+g.r.Intn(n+2))
 	}
 	return "size:" + strconv.Itoa(1+g.r.Intn(n+2))
 }
@@ -158,6 +161,8 @@ func (n *snode) columns(prefix string) []hcol {
 		return []hcol{{prefix + n.name, "map<" + n.typ + ", " + n.sname + ">"}}
 	case "incellStruct":
 		return []hcol{{prefix + n.name, "{int32 ID, string Name}" + n.sname}}
+	case "emptyStruct": // a local struct type without members: the nested message exists, it has no fields
+		return []hcol{{prefix + n.name, "{" + n.sname + "}"}}
 	case "predefStruct":
 		if n.sname == ".Prize" {
 			return []hcol{{prefix + n.name + "Name", "{.Prize}string"}, {prefix + n.name + "ID", "uint32"}, {prefix + n.name + "Num", "int32"}}
@@ -286,6 +291,8 @@ func (g *sgen) cells(n *snode, uniq int) []string {
 			return []string{""}
 		}
 		return []string{strconv.Itoa(r.Intn(100)) + ",n" + strconv.Itoa(r.Intn(10))}
+	case "emptyStruct":
+		return []string{""}
 	case "predefStruct":
 		if n.sname == ".Prize" {
 			return []string{"p" + strconv.Itoa(r.Intn(50)), strconv.Itoa(1 + r.Intn(500)), strconv.Itoa(r.Intn(9000))}
